@@ -301,31 +301,36 @@ func (w *world) evalReal(c call) res {
 			defer d.Dispose(w.ctx)
 		}
 		v, err := e.Eval(w.ctx, nil)
-		if err != nil {
-			r = res{obs: classify(err)}
-			return
-		}
-		switch x := v.(type) {
-		case nil:
-			r = res{obs: "null", null: true}
-		case int8:
-			r = res{isI: true, i: int64(x)}
-		case int32:
-			r = res{isI: true, i: int64(x)}
-		case string:
-			r = res{isS: true, s: x}
-		default:
-			r = res{obs: fmt.Sprintf("other:%T", v)}
-		}
-		if r.isI {
-			r.obs = fmt.Sprintf("(i %d)", r.i)
-		}
-		if r.isS {
-			r.obs = runesSexp("s", r.s, false)
-		}
+		r = mkRes(v, err)
 	})
 	if p != "" {
 		return res{obs: "crash"}
+	}
+	return r
+}
+
+// mkRes canonicalises the outcome of one Eval.
+func mkRes(v interface{}, err error) (r res) {
+	if err != nil {
+		return res{obs: classify(err)}
+	}
+	switch x := v.(type) {
+	case nil:
+		r = res{obs: "null", null: true}
+	case int8:
+		r = res{isI: true, i: int64(x)}
+	case int32:
+		r = res{isI: true, i: int64(x)}
+	case string:
+		r = res{isS: true, s: x}
+	default:
+		r = res{obs: fmt.Sprintf("other:%T", v)}
+	}
+	if r.isI {
+		r.obs = fmt.Sprintf("(i %d)", r.i)
+	}
+	if r.isS {
+		r.obs = runesSexp("s", r.s, false)
 	}
 	return r
 }
@@ -334,6 +339,47 @@ var harnessErr error
 
 // maxFull is the arity (number of int arguments) at which a flags argument may follow.
 var maxInts = map[string]int{"like": 0, "instr": 3, "substr": 2, "replace": 2}
+
+// classes returns the classes of pattern and flags of a call and the matcher table for
+// (pattern, flags, text).
+func (w *world) classes(c call) (patCls, flagCls string, tbl [][]match) {
+	patCls, flagCls = "ok", "absent"
+	var fl regex.RegexFlags
+	if c.flags != nil {
+		switch {
+		case c.flags.null:
+			flagCls = "null"
+		case !utf8.ValidString(c.flags.s):
+			flagCls = "bad"
+		default:
+			var ok bool
+			fl, ok = flagBits(c.flags.s)
+			flagCls = "ok"
+			if !ok {
+				flagCls = "badchar"
+			}
+		}
+	}
+	switch {
+	case c.pat.null:
+		patCls = "null"
+	case !utf8.ValidString(c.pat.s):
+		patCls = "bad"
+	case c.pat.s == "":
+		patCls = "empty"
+	default:
+		text := ""
+		if !c.text.null && utf8.ValidString(c.text.s) {
+			text = c.text.s
+		}
+		var ok bool
+		tbl, ok = w.table(c.pat.s, fl, text)
+		if !ok {
+			patCls = "invalid"
+		}
+	}
+	return patCls, flagCls, tbl
+}
 
 // ev evaluates the call, records it as a correspondence case (with the matcher table) and
 // returns the observation.
@@ -354,43 +400,7 @@ func (w *world) ev(c call) (string, res) {
 		w.out.Stat("envelope:position-splits-surrogate-pair")
 		return "0", res{obs: "skipped", skipped: true}
 	}
-	// classes of pattern and flags, and the matcher table
-	patCls, flagCls := "ok", "absent"
-	var fl regex.RegexFlags
-	if c.flags != nil {
-		switch {
-		case c.flags.null:
-			flagCls = "null"
-		case !utf8.ValidString(c.flags.s):
-			flagCls = "bad"
-		default:
-			var ok bool
-			fl, ok = flagBits(c.flags.s)
-			flagCls = "ok"
-			if !ok {
-				flagCls = "badchar"
-			}
-		}
-	}
-	var tbl [][]match
-	switch {
-	case c.pat.null:
-		patCls = "null"
-	case !utf8.ValidString(c.pat.s):
-		patCls = "bad"
-	case c.pat.s == "":
-		patCls = "empty"
-	default:
-		text := ""
-		if !c.text.null && utf8.ValidString(c.text.s) {
-			text = c.text.s
-		}
-		var ok bool
-		tbl, ok = w.table(c.pat.s, fl, text)
-		if !ok {
-			patCls = "invalid"
-		}
-	}
+	patCls, flagCls, tbl := w.classes(c)
 	rep := "null"
 	if c.fn == "replace" {
 		rep = c.rep.sexp()
@@ -747,7 +757,10 @@ func run(a hx.RunArgs) error {
 	defer out.Close()
 	out.Rule = "one case = one call REGEXP_LIKE/INSTR/SUBSTR/REPLACE on literal arguments together with the table of matches the real matcher delivers from every start index; " +
 		"patterns from a common-subset grammar, a list of ICU-specific and a list of invalid patterns; subjects over ASCII, 2/3-byte and supplementary characters; " +
-		"positions -2..len+3, occurrences -1..4, NULLs, bad flags, ill-formed UTF-8; a case is non-trivial when a match is reported (non-zero position, non-NULL substring, changed text)"
+		"positions -2..len+3, occurrences -1..4, NULLs, bad flags, ill-formed UTF-8; a case is non-trivial when a match is reported (non-zero position, non-NULL substring, changed text). " +
+		"Sequences: ONE node over column references and/or literals evaluated on 2..8 successive rows drawn from small pools of subjects (with their case-swapped twins), patterns and match types, " +
+		"consecutive rows sharing the pattern but not the flags, the flags but not the pattern, both or neither, NULL / invalid values in between; the same as SQL statements over a table t(id,s,p,f) " +
+		"in ascending and descending order and behind WHERE filters; a sequence is non-trivial when two consecutive rows share exactly one of pattern / flags and get different results"
 	e := eng.New("d")
 	w := &world{ctx: e.Ctx(), reg: map[string]sql.Function{}, out: out, tbl: map[string][][]match{}}
 	for _, f := range function.BuiltIns {
@@ -889,6 +902,12 @@ func run(a hx.RunArgs) error {
 			w.fail(id, "-", "regexp_%s with a NULL argument returns %s", fn, r.obs)
 		}
 	}
+	// ONE node over the successive rows of a statement (per-node compiled-regex / result state)
+	nSeq, nStmt := 500, 40
+	if a.Thorough {
+		nSeq, nStmt = 30000, 1500
+	}
+	w.runSequences(e, &gen{r: root.Fork()}, nSeq, nStmt)
 	// UTF-16 conversion of the wrapper, compared with unicode/utf16
 	for i := 0; i < 300; i++ {
 		t := g.text()
